@@ -152,7 +152,7 @@ def judge_driver(ctx, cov, cfg, M, rhs, rec):
             continue
         cov["berr_truthful"] += 1
         cov["berr_decade=%s" % ("0" if berr == 0 else "%03d" % int(math.floor(math.log10(float(berr)))))] += 1
-        if conj and (cplx or REAL_CONJ_REJECTED):
+        if conj and (not cplx) and REAL_CONJ_REJECTED:     # complex CONJ solves since the conjugate-transpose repair in /repo
             cov["conj_x_clauses_excluded"] += 1
             continue
         # ---- size of berr for matrices that are not ill conditioned to working precision
@@ -165,7 +165,7 @@ def judge_driver(ctx, cov, cfg, M, rhs, rec):
         if kappa is not None and kappa * 10 * eps < 1:
             bp = [to_num(v, cplx) for v in rhs[j]]
             dense = [[(R.CF() if cplx else F(0)) for _ in range(n)] for _ in range(n)]
-            for (i_, j_, v) in op_entries(pristine, "N" if trans == 0 else "T"):
+            for (i_, j_, v) in op_entries(pristine, sense_prop):
                 dense[i_][j_] = dense[i_][j_] + v
             xs = R.solve_exact(dense, bp)
             if xs is None:
